@@ -1544,7 +1544,7 @@ class ValueString(Value):
     def asDate(self):
         # handle yyyyMMddHHmmss, yyyyMMddHH and yyyyMMdd
         # raise exception if not matching
-        if len(self.value) < 8:
+        if len(self.value) not in (8, 10, 14):
             raise CklRuntimeError(
                 ValueString("ERROR"),
                 "Cannot convert " + str(self.value) + " to date",
@@ -1558,7 +1558,7 @@ class ValueString(Value):
                 return ValueDate(
                     datetime.datetime.strptime(self.value, "%Y%m%d%H")
                 )
-            elif len(self.value) == 8:
+            else:
                 return ValueDate(
                     datetime.datetime.strptime(self.value, "%Y%m%d")
                 )
